@@ -132,6 +132,10 @@ def net_part(ck, tier, rng):
     # ... and the nested schedule-explicit model Model/NNSim.v (nested cases, interrupts of devices at any depth;
     # marker 2: the configuration also lies in the scope of the nested schedule-independence theorem, decided in Coq)
     nnsim_scope = run_shards(PID + "_nnsim", sprops.HEADER + "\nFrom TV Require Import Oracle.ScopeCheck.", "sched_case", "nnsim_scope", terms, shard_size=8)
+    # ... and the interleaving scheduler Model/HSim.v (all the messages of all the schedulers of a nesting in flight at once;
+    # compared with Model/Sim.v by code 25 of check_sched): on how many nested cases its rotating strategy really gives a
+    # global order of updates that neither atomic strategy has
+    hsim_inter = run_shards(PID + "_hsim", sprops.HEADER, "sched_case", "(fun g => hsim_interleaves (fst g))", terms, shard_size=8)
     deliveries = choices = 0
     pol = {}
     for case, (ref, delayed) in zip(cases, groups):
@@ -146,7 +150,8 @@ def net_part(ck, tier, rng):
                        net_nested=sum(1 for c in cases if len(c["cfg"]) > 1), net_disagreements=len(bad),
                        net_flat_cases_compared_with_schedule_explicit_model=len(nsim_scope),
                        net_nested_cases_compared_with_nested_schedule_explicit_model=len(nnsim_scope),
-                       net_nested_cases_in_scope_of_nested_schedule_independence_theorem=sum(1 for v in nnsim_scope.values() if 2 in v))
+                       net_nested_cases_in_scope_of_nested_schedule_independence_theorem=sum(1 for v in nnsim_scope.values() if 2 in v),
+                       net_nested_cases_on_which_the_interleaving_scheduler_interleaves_system_simulations=len(hsim_inter))
     reported = False
     # a participant that raises or a simulation that stalls under some schedule only
     for i, (case, (ref, delayed)) in enumerate(zip(cases, groups)):
@@ -187,7 +192,7 @@ def main(tier, seed):
                           "Proofs/TickerP.v", "Model/NSim.v", "Proofs/LatestP.v", "Proofs/EqvP.v", "Proofs/InlineP.v", "Proofs/InlineLoopP.v",
                           "Proofs/InlineScopeP.v", "Proofs/InlineLatestP.v", "Proofs/WakeWfP.v", "Proofs/ExtentP.v", "Proofs/Confluence2P.v",
                           "Proofs/ScheduleP.v", "Proofs/SimTraceP.v", "Model/SimTime.v", "Model/Inline.v", "Proofs/ParDevP.v", "Proofs/FuelP.v",
-                          "Proofs/Confluence3P.v", "Model/NNSim.v", "Proofs/NScheduleP.v", "Proofs/NDetP.v", "Proofs/NDetScopeP.v", "Proofs/NDetXP.v", "Proofs/SimNTP.v", "Proofs/MsgLevelP.v", "Proofs/ExtentP.v", "Model/Interrupts.v", "Oracle/ScopeCheck.v",
+                          "Proofs/Confluence3P.v", "Model/NNSim.v", "Proofs/NScheduleP.v", "Proofs/NDetP.v", "Proofs/NDetScopeP.v", "Proofs/NDetXP.v", "Proofs/SimNTP.v", "Proofs/MsgLevelP.v", "Model/HSim.v", "Proofs/MsgTreeP.v", "Proofs/HSimP.v", "Proofs/ExtentP.v", "Model/Interrupts.v", "Oracle/ScopeCheck.v",
                           "Proofs/FrameP.v", "Proofs/NonInterfP.v", "Proofs/NonInterfLoopP.v", "Props/C08.v"],
                          "schedule independence", extra=net_part)
 
